@@ -414,7 +414,7 @@ func c07ContentTypes() []c07Req {
 }
 
 func c07Jobs(tier string) []string {
-	jobs := []string{"ctypes", "batches", "multipart", "documents", "sizes", "json:1", "json:2", "json:3", "json:4", "json:5", "rawshort"}
+	jobs := []string{"ctypes", "batches", "multipart", "documents", "vartypes", "sizes", "json:1", "json:2", "json:3", "json:4", "json:5", "rawshort"}
 	for _, a := range c07Alphabet {
 		for _, b := range c07Alphabet {
 			jobs = append(jobs, "raw5:"+a+b)
@@ -495,7 +495,7 @@ func init() {
 		Rule: "grammars enumerated exhaustively: (raw) every string of length <=5 (thorough <=6) over the alphabet [ ] { } \" : , space a 1 n as application/json body; (json) every JSON tree with <=5 (6) nodes over " +
 			"{null,true,1,\"\",valid query,invalid query,[],{}} with object keys {query,variables,operationName,x}; (ctypes) content types; (batches) every batch of length <=3 over {valid, invalid, introspection, ambiguous document, mutation}; (multipart) operations single/batch x maps with <=2 files x <=2 paths over a 22-path alphabet, " +
 			"missing file parts, malformed map/operations; (corner) every valid operation with <=3 fields on corner-case schemas; oracle: process alive, handler returned, JSON body with data and/or errors, status in {200,422} " +
-			"(documents) 43 odd GraphQL documents (only ignored tokens, only a fragment, several anonymous or equally named operations, trailing garbage, BOM, type-system definitions, other operation kinds) x 5 operationName values, alone and in a batch next to a valid operation; (sizes) undecodable bodies, padded valid requests, huge invalid names and huge answers from 1 KiB to 1.1 MiB, each followed by the canonical request; " +
+			"(documents) 43 odd GraphQL documents (only ignored tokens, only a fragment, several anonymous or equally named operations, trailing garbage, BOM, type-system definitions, other operation kinds) x 5 operationName values, alone and in a batch next to a valid operation; (vartypes) 15 valid documents with one variable (introspection arguments, @skip/@include on fields, fragments and the root __typename, arguments of queries and mutations) x 18 JSON values of every shape for it, alone and in a batch; (sizes) undecodable bodies, padded valid requests, huge invalid names and huge answers from 1 KiB to 1.1 MiB, each followed by the canonical request; " +
 			"with a three-valued reference (must-422 / must-200 / either), and a canonical follow-up request still answered correctly; non-trivial = the request reached decoding",
 		Assumptions: []string{"POST only (other methods are routed elsewhere by Handler)", "grey zone (either status): duplicate or case-variant keys, case-variant media types, duplicate map paths",
 			"the three-valued status reference is harness code (c07ExpectJSON, pathOK)"},
@@ -569,6 +569,38 @@ func init() {
 						reqs = append(reqs, c07Req{Method: "POST", ContentType: "application/json", Body: string(b), Expect: 200, Kind: "document"})
 						bb, _ := json.Marshal([]interface{}{map[string]interface{}{"query": c07ValidQ}, m})
 						reqs = append(reqs, c07Req{Method: "POST", ContentType: "application/json", Body: string(bb), Expect: 200, Kind: "batch"})
+					}
+				}
+			case job == "vartypes":
+				// valid documents whose variables carry JSON values of every shape, fitting the declared type or not
+				// (the gateway validates documents, nobody validates the values): gateway-answered fields, directives,
+				// arguments of service fields, alone and mixed
+				docs := []string{
+					`query ($v: Boolean) { __type(name: "N1") { fields(includeDeprecated: $v) { name } } }`,
+					`query ($v: Boolean) { __type(name: "N1") { enumValues(includeDeprecated: $v) { name } } }`,
+					`query ($v: Boolean) { __schema { types { fields(includeDeprecated: $v) { name } enumValues(includeDeprecated: $v) { name } } } }`,
+					`query ($v: Boolean = true) { __type(name: "N1") { fields(includeDeprecated: $v) { name } } echo }`,
+					`query ($v: String!) { __type(name: $v) { name kind } }`,
+					`query ($v: String!) { echo __type(name: $v) { name } }`,
+					`query ($v: Boolean!) { echo @skip(if: $v) }`,
+					`query ($v: Boolean!) { echo @include(if: $v) n1s { name @skip(if: $v) phone @include(if: $v) } }`,
+					`query ($v: Boolean!) { __typename @skip(if: $v) echo }`,
+					`query ($v: Boolean!) { ... @include(if: $v) { echo } }`,
+					`query ($v: Int) { echo(x: $v) }`,
+					`query ($v: Int = 3) { echo(x: $v) n1s { calc(x: $v) } }`,
+					`query ($v: ID!) { node(id: $v) { id } }`,
+					`mutation ($v: Int!) { incr(by: $v) }`,
+					`mutation ($v: String) { mkN1(name: $v) { id phone } }`,
+				}
+				vals := []string{"-", "null", "true", "false", "0", "1", "-1", "1.5", "1e100", `""`, `"true"`, `"N1"`, "[]", "[true]", `["N1"]`, "{}", `{"a":1}`, "[[1]]"}
+				for _, d := range docs {
+					for _, v := range vals {
+						body := `{"query":` + jsonString(d) + `,"variables":{"v":` + v + `}}`
+						if v == "-" {
+							body = `{"query":` + jsonString(d) + `,"variables":{}}`
+						}
+						reqs = append(reqs, c07Req{Method: "POST", ContentType: "application/json", Body: body, Expect: 200, Kind: "vartypes"})
+						reqs = append(reqs, c07Req{Method: "POST", ContentType: "application/json", Body: `[{"query":` + jsonString(c07ValidQ) + `},` + body + `]`, Expect: 200, Kind: "batch"})
 					}
 				}
 			case job == "sizes":
@@ -726,4 +758,9 @@ func c07Corner(tier, job string, from int, em *Emitter) {
 		}
 		em.Done(true)
 	}
+}
+
+func jsonString(x string) string {
+	b, _ := json.Marshal(x)
+	return string(b)
 }
